@@ -421,7 +421,7 @@ Lemma p2_logfail : forall t evt, preserves R2 (uts_logfail t evt).
 Proof. intros; unfold uts_logfail; walk2. Qed.
 Lemma p2_setst : forall idx ns, preserves R2 (uts_setst idx ns).
 Proof. intros idx [s|]; unfold uts_setst; walk2. Qed.
-Lemma p2_completion : forall t route evt ts idx new, preserves R2 (uts_completion ev t route evt ts idx new).
+Lemma p2_completion : forall t route evt ts idx new o0, preserves R2 (uts_completion ev t route evt ts idx new o0).
 Proof. intros; unfold uts_completion; walk2. Qed.
 Lemma p2_step1 : forall t route idx ctx e, preserves R2 (pt_step1 ev t route idx ctx e).
 Proof. intros; unfold pt_step1, upd_rec; walk2. Qed.
@@ -566,7 +566,7 @@ Proof.
   { intros c2 r2 E2. eapply Post_trans; [exact Hp1|exact K1|]. eapply retrying_P; eassumption. }
   destruct H1 as [[c2 [u2 [E2 H2]]]|[x [E2 ->]]]; [|eapply HR; exact E2].
   destruct (HR _ _ E2) as [K2 [G2 [Hp2 HP2]]].
-  eapply (bind_G _ _ _ _ (fun c' _ => Post G c c') G2 c2 c' res H2 HP2 (p2_completion _ _ _ _ _ _)).
+  eapply (bind_G _ _ _ _ (fun c' _ => Post G c c') G2 c2 c' res H2 HP2 (p2_completion _ _ _ _ _ _ _)).
   { intros c3 G3 e Hp3 K3 HP3. split; [eapply sik_trans; eassumption|exists G3; split; [eapply prefix_trans; eassumption|exact HP3]]. }
   intros c3 G3 compl _ Hp3 K3 HP3 H3. inversion H3; subst c' res.
   split; [eapply sik_trans; eassumption|exists G3; split; [eapply prefix_trans; eassumption|exact HP3]].
